@@ -45,7 +45,10 @@ def direct_sound_oracle(ctx):
     ctx.oracle_evals += 2
     # several receivers in ONE call, near ones first: nothing may reach a receiver before its own
     # direct path (every reflected path is longer), whatever the other receivers of the call are
-    sc_l = dict(sc, S=sc['long_bins'] + 5)
+    # fine time resolution (patch-to-receiver legs of different receivers then differ by several
+    # bins) and a histogram that holds every arrival
+    dt_f = 2.5e-4
+    sc_l = dict(sc, dt=dt_f, S=int(np.ceil((max(sc['K'], 0) + 3) * float(np.linalg.norm(sc['sides'])) / sc['c'] / dt_f)) + 8)
     r_l = energy.run_all(sc_l)
     S_l = np.asarray(r_l._energy_exchange_etc).shape[-1]
     diag = float(np.linalg.norm(sc['sides']))
@@ -56,6 +59,24 @@ def direct_sound_oracle(ctx):
     ctx.oracle_evals += 1
     cdt = r_l.speed_of_sound * r_l._etc_time_resolution
     pc = np.asarray(r_l.patches_center)
+    # patch by patch: the contribution of patch j to receiver k cannot start before the first bin of
+    # the patch histogram plus the patch-to-receiver time of flight (ceil-rounded; one bin of slack)
+    pw_set = r_l.collect_energy_receiver_patchwise(scenes.coords(set_)).time       # (R, P, B, S)
+    etc_l = np.asarray(r_l._energy_exchange_etc)                                      # (P, D, B, S)
+    ctx.oracle_evals += 1
+    for k in range(len(set_)):
+        for j in range(len(pc)):
+            nz_e = np.nonzero(etc_l[j].reshape(-1, S_l).any(axis=0))[0]
+            nz_p = np.nonzero(pw_set[k, j].any(axis=0))[0]
+            if len(nz_e) == 0 or len(nz_p) == 0:
+                continue
+            first_allowed = int(nz_e[0]) + int(np.ceil(np.linalg.norm(pc[j] - set_[k]) / cdt)) - 1
+            if int(nz_p[0]) < first_allowed:
+                ctx.violation('patch-contribution-before-time-of-flight',
+                              'receiver %d of a set of %d: the contribution of patch %d starts in bin %d, the patch histogram starts in bin %d and the patch is %d bins away'
+                              % (k, len(set_), j, int(nz_p[0]), int(nz_e[0]), first_allowed + 1 - int(nz_e[0])),
+                              dict(energy.scene_input(sc_l), recs=set_), {'first_bin': int(nz_p[0])}, {'first_possible_bin': first_allowed})
+                return
     b0 = np.floor(np.linalg.norm(pc - src, axis=1) / cdt)
     for k in range(len(set_)):
         # earliest possible bin: source leg floored + receiver leg ceiled, over all patches; every
